@@ -463,6 +463,6 @@ func runPipeCtl(c *ctx) error {
 			return err
 		}
 	}
-	c.res.Rule = "real pipeline goroutines parked at the verif gates (entry of every storage and output-buffer operation, encoder hand-over) and released one at a time; each released step is the step of the corresponding Lean model thread and the sets of pending operations are compared after every step, the full observable state at quiescence. Scenarios: crash and single injected failure at every gate position of the uplink handler, join handler and encoder followed by redelivery of the same and the next frame (C10); interleavings of two/three copies of one uplink and of an uplink with the encoder of the previous one (C03/C07/C09); copies of one join-request (C05); populations where one frame authenticates for two devices, canonical schedule. A class is (scenario, position/schedule shape)."
+	c.res.Rule = "real pipeline goroutines parked at the verif gates (entry of every storage and output-buffer operation, encoder hand-over) and released one at a time; each released step is the step of the corresponding Lean model thread and the sets of pending operations are compared after every step, the full observable state at quiescence. Scenarios: crash and single injected failure at every gate position of the uplink handler, join handler and encoder followed by redelivery of the same and the next frame (C10); interleavings of two/three copies of one uplink (random; the late copy with its stale view; one copy's counter write failing), each followed by an unconfirmed uplink with nothing queued, and of an uplink with the encoder of the previous one, also with a queued message the frame encoder cannot encode (C03/C07/C09/C10); copies of one join-request (C05); a join-request while the data answer of the same device waits for its window (C17); populations where one frame authenticates for two devices, canonical schedule, with the sender's record checked against the sender's plaintext (C02). A class is (scenario, position/schedule shape)."
 	return nil
 }
